@@ -261,8 +261,9 @@ static void run_case(int f, int w, int h, int k, int t, int placement, const std
         std::string cls = "unexplained";
         bool found = false;
         for (int sh = -4; sh <= 4 && !found; sh++)
-          for (int fl = 0; fl < 2 && !found; fl++) {
-            if (sh == 0 && (fl != 0) == F.bottom_up)
+          for (int fi = 0; fi < 2 && !found; fi++) {
+            const int fl = fi == 0 ? (F.bottom_up ? 1 : 0) : (F.bottom_up ? 0 : 1);  // the format's own row order first
+            if (sh == 0 && fi == 0)
               continue;
             // search relative to the whole block so that reads into the padding are recognised
             const unsigned char *base = block;
